@@ -793,3 +793,24 @@ class _StrSet(Kind):
 
 
 StrSet = _StrSet()
+PyValSort = z3.DeclareSort("PyVal")
+
+
+class _Val(Kind):
+    """An immutable Python value that is only compared and hashed (e.g. a frozenset of objects): uninterpreted sort;
+    `==` is term equality and hash() an uninterpreted function of the term (ASSUMED: hash consistent with ==)."""
+
+    def sort(self):
+        return PyValSort
+
+    def wrap(self, ctx, term):
+        return term
+
+    def unwrap(self, v):
+        return v
+
+    def __repr__(self):
+        return "Val"
+
+
+Val = _Val()
